@@ -230,6 +230,20 @@ def adversarial_tuples(rnd, names):
     return sorted(tuples)
 
 
+def single_byte_shift_tuples(k):
+    """boundary shifts around EVERY character that is one byte in UTF-8 (any of them could be mistaken for a separator between
+    values): a?b split at each position, for all 128 characters"""
+    out = set()
+    for c in range(128):
+        s = "a" + chr(c) + "b"
+        for i in range(len(s) + 1):
+            if k == 2:
+                out.add((s[:i], s[i:]))
+            else:
+                out.add((s[:i], s[i:], "z")); out.add(("z", s[:i], s[i:]))
+    return out
+
+
 def adversarial_vec_jobs(rnd, quick):
     jobs = []
     configs = [(["l1", "l2"], "counter"), (["host", "hostname"], "int_counter"), (["a", "ab"], "gauge"), (["x", "xy", "xyz"], "histogram")]
@@ -238,6 +252,7 @@ def adversarial_vec_jobs(rnd, quick):
         if quick and len(tuples) > 6000:
             keep = set(rnd.sample(range(len(tuples)), 6000))
             tuples = [t for i, t in enumerate(tuples) if i in keep]
+        tuples = sorted(set(tuples) | single_byte_shift_tuples(len(names)))
         upd = "observe" if fl == "histogram" else "inc"
         calls = [{"op": fl + "_vec", "as": "V", "opts": {"name": "m", "help": "h"}, "labels": names}]
         refused = []     # indexes of calls that must be refused (Err) and leave no trace: wrong number of values, unknown / missing label name, removal of a tuple that has no child
